@@ -134,7 +134,7 @@ def _case(rng: Rng, big):
 
 
 def gen_cases(rng: Rng, tier):
-    n = dict(quick=200, thorough=2500)[tier]
+    n = dict(quick=160, thorough=2500)[tier]
     for k in range(n):
         yield _case(rng, big=(tier == "thorough" and k % 3 == 0))
     # scripted update step (the REAL fit loop driven by a fake `_update_components`): every branch of the
@@ -212,7 +212,7 @@ class Runaway(Exception):
     """Raised by the wrapper when the fit makes more update calls than K(2·max+1) + 3."""
 
 
-def _fit_once(case, normalize, record):
+def _fit_once(case, normalize, record, est=None):
     """One seeded fit with `_update_components` / `_initialize_vectors` wrapped from outside."""
     from FDApy.preprocessing.dim_reduction import fcp_tpa
     from FDApy.representation.argvals import DenseArgvals
@@ -255,7 +255,8 @@ def _fit_once(case, normalize, record):
         return out
 
     fcp_tpa._update_components, fcp_tpa._initialize_vectors = wrap_u, wrap_i
-    est = fcp_tpa.FCPTPA(n_components=case["K"], normalize=normalize)
+    if est is None:
+        est = fcp_tpa.FCPTPA(n_components=case["K"], normalize=normalize)
     n_warn = 0
     try:
         np.random.seed(case["seed"])
@@ -285,6 +286,11 @@ def _group(case, X, calls, inits):
     cur = inits[0]
     pos = 0
     counts, ratios, units, zero_resid = [], [], [], []
+    zero_contr = False
+    for data, vin, _ in calls:
+        # right-hand side of the u update; an exactly zero contraction makes u = 0 and the next divisors uᵀu = 0
+        if all(np.isfinite(v).all() for v in vin) and not np.any(np.einsum("i, j, kij -> k", vin[1], vin[2], data) != 0):
+            zero_contr = True
     for _ in range(K):
         zero_resid.append(bool(not np.any(values != 0)))  # also true when everything is nan? no: nan != 0
         zeros = tuple(np.zeros_like(v) for v in cur)
@@ -309,7 +315,7 @@ def _group(case, X, calls, inits):
             values = values - (c * np.einsum("i, j, k -> ijk", *unit))
         units.append(unit)
         cur = unit
-    return counts, ratios, units, pos == len(calls), zero_resid
+    return counts, ratios, units, pos == len(calls), zero_resid, zero_contr
 
 
 def run_impl(case):
@@ -318,8 +324,9 @@ def run_impl(case):
         est, fd, X, calls, inits, n_warn = _fit_once(case, False, True)
     except Runaway as e:
         return dict(runaway=str(e))
-    counts, ratios, units, ok, zero_resid = _group(case, X, calls, inits)
+    counts, ratios, units, ok, zero_resid, zero_contr = _group(case, X, calls, inits)
     out["zero_resid"] = zero_resid
+    out["zero_contraction"] = bool(zero_contr)
     kf = 0
     while kf < len(units) and all(np.isfinite(v).all() for v in units[kf]):
         kf += 1
@@ -368,6 +375,19 @@ def run_impl(case):
         rec3 = np.asarray(est3.inverse_transform(S3).values)
         out["recon_n"] = rec3.reshape(rec3.shape[0], -1).tolist()
         out["numint_n"] = np.asarray(est3.transform(fd3, method="NumInt")).tolist()
+    # --- history on ONE estimator object: fit something else first (other data, other options), then the case
+    other = dict(case)
+    other.update(K=max(1, (case["K"] + 1) % 4), max=2, tol=1e-2, adapt=not case["adapt"],
+                 X=[row[::-1] for row in case["X"][::-1]], script=None)
+    est_h, fd_h, _, _, _, _ = _fit_once(other, True, False)
+    est_h.n_components, est_h.normalize = case["K"], False
+    est_h2, _, _, calls_h, _, _ = _fit_once(case, False, False, est=est_h)
+    S4, E4 = np.asarray(est_h2.transform(fd, method="FCPTPA")), np.asarray(est_h2.eigenfunctions.values)
+    out["history_ok"] = bool(
+        len(calls_h) == len(calls) and np.array_equal(S, S4, equal_nan=True) and np.array_equal(E, E4, equal_nan=True)
+        and np.array_equal(est.eigenvalues, est_h2.eigenvalues, equal_nan=True)
+        and np.array_equal(np.asarray(est_h2.transform(fd, method="NumInt")), np.asarray(out["numint"]), equal_nan=True)
+    )
     # --- ties between a recorded ratio and a tolerance level
     tie = False
     tol = F(case["tol"])
@@ -572,6 +592,8 @@ def oracle(case, impl):
         bad("terminates", f"{impl['total_calls']} updates for {case['K']} components > K(2*{mx}+1)")
     if not impl["repro"]:
         bad("reproducible", "two fits under the same global seed differ")
+    if not impl["history_ok"]:
+        bad("reproducible", "a fit on an estimator object that was fitted before (other data, other options) differs from a fresh fit under the same seed", causes=["stale_state"])
     if impl["bad_method"] != "ValueError":
         bad("transform_method", f"unknown transform method: {impl['bad_method']}", "FCPTPA.transform")
     X = np.array([[float(F(x)) for x in row] for row in case["X"]])
@@ -581,9 +603,11 @@ def oracle(case, impl):
             return vs  # the scripted update step injected the nan itself
         causes = []
         zr = impl["zero_resid"]
-        if any(zr) and zr.index(True) <= K:
-            causes.append("residual_exactly_zero")  # 0/0 in the update step: the residual handed to component k is exactly 0
-        bad("finite", f"components {K}.. of {case['K']} are not finite (no unit-norm rank-one tensor); zero residual flags {zr}", causes=causes)
+        if (any(zr) and zr.index(True) <= K) or impl["zero_contraction"]:
+            # 0/0 in the update step: the contraction of the residual with the current v, w is exactly 0
+            # (in particular when the residual handed to component k is exactly 0)
+            causes.append("zero_contraction")
+        bad("finite", f"components {K}.. of {case['K']} are not finite (no unit-norm rank-one tensor); zero residual flags {zr}, zero contraction {impl['zero_contraction']}", causes=causes)
     S = np.array(impl["scores"])
     E = np.array(impl["eigenimages"])
     ex = float((X ** 2).sum())
@@ -627,6 +651,10 @@ def oracle(case, impl):
         okk = np.isfinite(nn)
         if okk.any() and np.abs(nn[okk] - 1).max() > 1e-9:
             bad("normalize_unit", f"normalised eigenimages have squared L² norms {nn.tolist()}")
+        Sn = np.array(impl["scores_n"])
+        ln = np.array(impl["eigenvalues_n"])
+        if np.isfinite(Sn).all() and np.isfinite(ln).all() and np.abs(np.var(Sn, axis=0) - ln).max() > 1e-9 * max(float((Sn ** 2).mean(axis=0).max()), 1e-300):
+            bad("normalize_eigenvalues", "normalised eigenvalues are not the variances of the normalised scores (scaled by norm²)")
         rec_n = np.array(impl["recon_n"])
         if np.isfinite(rec_n).all() and np.abs(rec_n - rec).max() > 1e-9 * max(np.abs(X).max(), 1e-300) * max(K, 1) * 10:
             bad("normalize_reconstruction", "normalisation changes inverse_transform(_scores)", "FCPTPA.inverse_transform")
